@@ -23,7 +23,6 @@ import (
 	"github.com/wundergraph/graphql-go-tools/v2/pkg/engine/resolve"
 	"github.com/wundergraph/graphql-go-tools/v2/pkg/operationreport"
 
-	"verifharness/internal/fed"
 	"verifharness/internal/fw"
 )
 
@@ -64,7 +63,7 @@ func blankMinified(s string) string {
 
 // requestSetsSeen executes the request n more times on the gateway (its plan is cached by now) and
 // returns the number of distinct request multisets (exact bodies) seen.
-func requestSetsSeen(gw *fed.Gateway, q *request, n int) int {
+func requestSetsSeen(gw *rig, q *request, n int) int {
 	seen := map[string]bool{}
 	for i := 0; i < n; i++ {
 		o := execute(gw, q, true, true)
@@ -201,7 +200,7 @@ func childCompute(spec string) (out *childOut) {
 		}
 	}()
 	parts := strings.Split(spec, "/")
-	if len(parts) != 4 {
+	if len(parts) != 5 {
 		out.Error = "bad spec"
 		return out
 	}
@@ -210,7 +209,7 @@ func childCompute(spec string) (out *childOut) {
 	mask, _ := strconv.Atoi(parts[2])
 	engineMask, _ := strconv.Atoi(parts[3])
 	c := &fw.Ctx{Seed: seed, Prop: "C09"}
-	in, err := genInput(c.Rng(idx, "c09"), detOps, false)
+	in, err := detInput(c, idx, parts[4])
 	if err != nil {
 		out.Error = err.Error()
 		return out
@@ -222,7 +221,7 @@ func childCompute(spec string) (out *childOut) {
 		return out
 	}
 	defer gw.Close()
-	schema, err := graphql.NewSchemaFromString(in.l.SuperSDL)
+	schema, err := graphql.NewSchemaFromString(in.superSDL)
 	if err != nil {
 		out.Error = err.Error()
 		return out
@@ -256,13 +255,21 @@ func maskList(mask int) []int {
 	return []int{0, mask}
 }
 
-func runChild(c *fw.Ctx, idx, mask, engineMask int) (*childOut, error) {
+// detInput: the inputs of a determinism case, a pure function of (seed, index, family).
+func detInput(c *fw.Ctx, idx int, family string) (*input, error) {
+	if family == "mk" {
+		return genMultiKeyInput(c.Rng(idx, "c09-mk"), detOps)
+	}
+	return genInput(c.Rng(idx, "c09"), detOps, false)
+}
+
+func runChild(c *fw.Ctx, idx, mask, engineMask int, family string) (*childOut, error) {
 	self, err := os.Executable()
 	if err != nil {
 		return nil, err
 	}
 	cmd := exec.Command(self)
-	cmd.Env = append(os.Environ(), fmt.Sprintf("%s=%d/%d/%d/%d", childEnv, c.Seed, idx, mask, engineMask))
+	cmd.Env = append(os.Environ(), fmt.Sprintf("%s=%d/%d/%d/%d/%s", childEnv, c.Seed, idx, mask, engineMask, family))
 	var stdout, stderr bytes.Buffer
 	cmd.Stdout, cmd.Stderr = &stdout, &stderr
 	if err := cmd.Start(); err != nil {
@@ -294,9 +301,18 @@ func runChild(c *fw.Ctx, idx, mask, engineMask int) (*childOut, error) {
 // ---------------------------------------------------------------------------------------------
 
 func runDet(c *fw.Ctx, idx int) fw.Result {
-	res := fw.Result{Key: fw.HashKey("c09-det", idx)}
-	mask := optMask(idx)
-	in, err := genInput(c.Rng(idx, "c09"), detOps, false)
+	engineMask := 0
+	if idx%5 == 1 {
+		// the engines of every second determinism case carry the case's option set instead of the default one
+		engineMask = optMask(idx)
+	}
+	return runDetFamily(c, idx, "fed", optMask(idx), engineMask, (idx/5)%2 == 0 && idx%5 == 0)
+}
+
+// runDetFamily: the determinism oracle over one configuration of the given family.
+func runDetFamily(c *fw.Ctx, idx int, family string, mask, engineMask int, crossProcess bool) fw.Result {
+	res := fw.Result{Key: fw.HashKey("c09-det", family, idx)}
+	in, err := detInput(c, idx, family)
 	if err != nil {
 		res.Broken(err.Error(), nil)
 		return res
@@ -307,21 +323,25 @@ func runDet(c *fw.Ctx, idx int) fw.Result {
 		res.Inconclusive = "no-operation: every generated operation fell into an excluded class"
 		return res
 	}
-	feat := featureString(in.prof)
+	feat := in.feat
 	res.Observe("layout_features", feat)
 	res.Observe("det_option_sets", maskString(mask))
+	if in.family == "mk" {
+		res.Count("mk_cases", 1)
+		res.Observe("mk_shapes", fmt.Sprintf("%s ties=%d subgraphs=%d", in.mkInfo.Shape, in.mkInfo.Ties, len(in.mkInfo.Subs)))
+		if in.mkInfo.Ties >= 2 && !in.mkInfo.Direct {
+			res.Count("mk_layouts_with_tied_indirect_routes", 1)
+		} else {
+			res.Count("mk_control_layouts", 1)
+		}
+	}
 	// ---- engine level: fresh engines, different orders
-	var gws []*fed.Gateway
+	var gws []*rig
 	defer func() {
 		for _, g := range gws {
 			g.Close()
 		}
 	}()
-	// the engines of every second determinism case carry the case's option set instead of the default one
-	engineMask := 0
-	if idx%5 == 1 {
-		engineMask = mask
-	}
 	res.Observe("det_engine_option_sets", maskString(engineMask))
 	for k := 0; k < detEngines; k++ {
 		gw, err := newGateway(in, engineMask)
@@ -347,7 +367,7 @@ func runDet(c *fw.Ctx, idx int) fw.Result {
 		execs[k] = make([]*obs, n)
 		pos[k] = make([]int, n)
 		for at, j := range orders[k] {
-			fw.SetContext(map[string]any{"operation": in.ops[j].Text, "variables": string(in.ops[j].Vars), "supergraph": in.l.SuperSDL, "engine": k})
+			fw.SetContext(map[string]any{"operation": in.ops[j].Text, "variables": string(in.ops[j].Vars), "supergraph": in.superSDL, "engine": k})
 			execs[k][j] = execute(gws[k], in.ops[j], true, true)
 			pos[k][j] = at
 			res.Count("det_engine_executions", 1)
@@ -452,15 +472,18 @@ func runDet(c *fw.Ctx, idx int) fw.Result {
 		if len(base.Reqs) >= 2 {
 			res.Count("det_multi_request_operations", 1)
 		}
+		if in.family == "mk" {
+			mkEvidence(&res, in, q, base)
+		}
 		if ok && len(base.Reqs) >= 2 && base.NEnt >= 1 {
 			keys = append(keys, fw.HashKey(in.layoutHash(), q.Text, q.Vars))
 			if res.Sample == nil {
-				res.Sample = map[string]any{"kind": "determinism", "layout": in.l.Describe, "operation": q.Text, "variables": string(q.Vars), "subgraph_requests": reqDump(base.Reqs), "response": truncate(base.Raw, 500), "engines": detEngines}
+				res.Sample = map[string]any{"kind": "determinism", "layout": in.describe, "operation": q.Text, "variables": string(q.Vars), "subgraph_requests": reqDump(base.Reqs), "response": truncate(base.Raw, 500), "engines": detEngines}
 			}
 		}
 	}
 	// ---- planner level
-	schema, err := graphql.NewSchemaFromString(in.l.SuperSDL)
+	schema, err := graphql.NewSchemaFromString(in.superSDL)
 	if err != nil {
 		res.Broken("supergraph rejected: "+err.Error(), nil)
 		return res
@@ -520,7 +543,7 @@ func runDet(c *fw.Ctx, idx int) fw.Result {
 			if !usable[j] {
 				continue
 			}
-			fw.SetContext(map[string]any{"normalised_operation": execs[0][j].Norm, "supergraph": in.l.SuperSDL, "option_set": ms})
+			fw.SetContext(map[string]any{"normalised_operation": execs[0][j].Norm, "supergraph": in.superSDL, "option_set": ms})
 			plA, err := newPlanner(cfgA)
 			if err != nil {
 				res.Broken("planner: "+err.Error(), nil)
@@ -551,7 +574,7 @@ func runDet(c *fw.Ctx, idx int) fw.Result {
 				res.Count("det_planner_level_planning_errors", 1)
 			}
 			if dumps[j].Panic != "" {
-				res.Violate("det.plan-panic", "the planner panics on an operation the engine planned", map[string]string{"layer": "planner", "panic": dumps[j].Panic, "option_set": ms}, map[string]any{"normalised_operation": execs[0][j].Norm, "supergraph": in.l.SuperSDL})
+				res.Violate("det.plan-panic", "the planner panics on an operation the engine planned", map[string]string{"layer": "planner", "panic": dumps[j].Panic, "option_set": ms}, map[string]any{"normalised_operation": execs[0][j].Norm, "supergraph": in.superSDL})
 			}
 			plA2, _ := newPlanner(cfgA)
 			compare(j, "fresh", "", "second fresh planner over the same configuration object", planOnce(plA2, def, execs[0][j].Norm, m))
@@ -580,7 +603,7 @@ func runDet(c *fw.Ctx, idx int) fw.Result {
 				twin = nil
 				break
 			}
-			fw.SetContext(map[string]any{"normalised_operation": execs[0][j].Norm, "supergraph": in.l.SuperSDL, "option_set": ms, "planner": "re-used, visitor state cleared by the harness"})
+			fw.SetContext(map[string]any{"normalised_operation": execs[0][j].Norm, "supergraph": in.superSDL, "option_set": ms, "planner": "re-used, visitor state cleared by the harness"})
 			twinDumps[round] = planOnce(twin, def, execs[0][j].Norm, m)
 			res.Count("det_plans_dumped", 1)
 			res.Count("det_reused_cleared_planner_plans", 1)
@@ -593,7 +616,7 @@ func runDet(c *fw.Ctx, idx int) fw.Result {
 			if reused == nil {
 				break
 			}
-			fw.SetContext(map[string]any{"normalised_operation": execs[0][j].Norm, "supergraph": in.l.SuperSDL, "option_set": ms, "planner": "re-used"})
+			fw.SetContext(map[string]any{"normalised_operation": execs[0][j].Norm, "supergraph": in.superSDL, "option_set": ms, "planner": "re-used"})
 			d := planOnce(reused, def, execs[0][j].Norm, m)
 			res.Count("det_plans_dumped", 1)
 			res.Count("det_reused_planner_plans", 1)
@@ -641,8 +664,8 @@ func runDet(c *fw.Ctx, idx int) fw.Result {
 		}
 	}
 	// ---- another process
-	if (idx/5)%2 == 0 && idx%5 == 0 {
-		child, err := runChild(c, idx, mask, engineMask)
+	if crossProcess {
+		child, err := runChild(c, idx, mask, engineMask, family)
 		switch {
 		case err != nil:
 			res.Count("det_cross_process_failed", 1)
